@@ -388,6 +388,15 @@ def replay_failures(obl, out, pid=PID):
             break
 
 
+def safe_builder(eng, obl, out, spec, nv, nf, **kw):
+    """one builder the executor cannot follow (after a refactoring) must not stop the others"""
+    try:
+        return run_builder(eng, obl, out, spec, nv, nf, **kw)
+    except mx.Inconclusive as e:
+        out.inconclusive.append("fn=%s[%dx%d] reason=%s" % (spec[0], nv, nf, e))
+        return None
+
+
 def run(tier, pid=PID, only_field_events=False):
     t0 = time.time()
     out = common.Outcome(pid)
@@ -409,16 +418,25 @@ def run(tier, pid=PID, only_field_events=False):
                     frees = [set(), {rnd.choice(cmpcfg.PREC[trait])}]
                 for fr in frees:
                     nv, nf = (1, 1)
-                    ex, shape, ref = run_builder(eng, obl, out, spec, nv, nf, free_attrs=fr, pid=pid, only_field_events=only_field_events)
-                    obl.ex_by_label["%s[%dx%d free=%s]" % (label, nv, nf, "+".join(sorted(fr)))] = (ex, shape, ref)
+                    r_ = safe_builder(eng, obl, out, spec, nv, nf, free_attrs=fr, pid=pid, only_field_events=only_field_events)
+                    if r_ is not None:
+                        obl.ex_by_label["%s[%dx%d free=%s]" % (label, nv, nf, "+".join(sorted(fr)))] = r_
                 big = tier == "thorough" or (skind == "enum" and trait == TRAITS[common.seed() % 5])
                 if big:
                     nv, nf = (2, 1) if skind == "enum" else (1, 2)
-                    ex, shape, ref = run_builder(eng, obl, out, spec, nv, nf, free_attrs=set(), pid=pid, only_field_events=only_field_events)
-                    obl.ex_by_label["%s[%dx%d free=]" % (label, nv, nf)] = (ex, shape, ref)
+                    r_ = safe_builder(eng, obl, out, spec, nv, nf, free_attrs=set(), pid=pid, only_field_events=only_field_events)
+                    if r_ is not None:
+                        obl.ex_by_label["%s[%dx%d free=]" % (label, nv, nf)] = r_
+                elif skind == "struct":
+                    # two fields, field-level bound(..) quiet, ignore/by/key free on one helper attribute: per-field state must not leak into the next field
+                    fr2 = {rnd.choice(cmpcfg.PREC[trait])}
+                    r_ = safe_builder(eng, obl, out, spec, 1, 2, free_attrs=fr2, pid=pid, only_field_events=only_field_events, quiet_fields=True)
+                    if r_ is not None:
+                        obl.ex_by_label["%s[1x2 free=%s quiet-fields]" % (label, "+".join(sorted(fr2)))] = r_
                 elif skind == "enum":
-                    ex, shape, ref = run_builder(eng, obl, out, spec, 2, 1, free_attrs=set(), pid=pid, only_field_events=only_field_events, quiet_fields=True)
-                    obl.ex_by_label["%s[2x1 free= quiet-fields]" % label] = (ex, shape, ref)
+                    r_ = safe_builder(eng, obl, out, spec, 2, 1, free_attrs=set(), pid=pid, only_field_events=only_field_events, quiet_fields=True)
+                    if r_ is not None:
+                        obl.ex_by_label["%s[2x1 free= quiet-fields]" % label] = r_
             else:
                 sizes = [(1, 1)]
                 heavy = fam in ("Debug", "Default")
@@ -427,8 +445,9 @@ def run(tier, pid=PID, only_field_events=False):
                 if skind == "struct" and fam != "Deref" and (not heavy or tier == "thorough" or label == "debug-struct"):
                     sizes.append((1, 2))
                 for nv, nf in sizes:
-                    ex, shape, ref = run_builder(eng, obl, out, spec, nv, nf, pid=pid, only_field_events=only_field_events)
-                    obl.ex_by_label["%s[%dx%d]" % (label, nv, nf)] = (ex, shape, ref)
+                    r_ = safe_builder(eng, obl, out, spec, nv, nf, pid=pid, only_field_events=only_field_events)
+                    if r_ is not None:
+                        obl.ex_by_label["%s[%dx%d]" % (label, nv, nf)] = r_
         replay_failures(obl, out, pid)
         if tier == "thorough":
             e3.cross_check_solvers(obl, out)
